@@ -60,6 +60,17 @@ GEN_SPECS = {
 }
 
 
+def text_of(tree):
+    """a printable key for a tree (a tree whose bit runs are not byte-aligned has no bytes view)"""
+    try:
+        return tree.to_string() if not tree.should_be_serialized_to_bytes() else repr(tree.to_bytes())
+    except Exception:
+        try:
+            return "bits:" + str(tree.to_bits())
+        except Exception:
+            return "tree:" + repr(tree.to_tree())[:200]
+
+
 def check_generators(tree, oracles):
     """C16 contract on one emitted tree"""
     problems = []
@@ -207,7 +218,7 @@ def run_pid(pid, tier, seed):
                         timeouts += to
                         continue
                     evaluations += 1
-                    distinct.add((name, res.to_string() if not res.should_be_serialized_to_bytes() else repr(res.to_bytes())))
+                    distinct.add((name, text_of(res)))
                     ok, why = valid(grammar, res)
                     if not ok:
                         record(name, "grammar_fuzz_invalid", why, text)
@@ -235,7 +246,7 @@ def run_pid(pid, tier, seed):
                 fan, sols = res
                 for t in sols:
                     evaluations += 1
-                    distinct.add((name, t.to_string() if not t.should_be_serialized_to_bytes() else repr(t.to_bytes())))
+                    distinct.add((name, text_of(t)))
                     if pid == "C01":
                         ok, why = valid(fan.grammar, t)
                         if not ok:
